@@ -178,6 +178,10 @@ def run_impl(cfg, ops):
                             data = impl.publish_pkt(b"t", str(cc).encode(), qos=a, mid=b, v5=v5)
                         else:
                             data = impl.ack(kind, a)
+                            if v5 and (a + len(results)) % 3:
+                                # MQTT 5 long forms: reason code 0, optionally an empty property block
+                                extra = b"\x00" if (a + len(results)) % 3 == 1 else b"\x00\x00"
+                                data = impl.pkt(data[0], data[2:] + extra)
                         st["raise_next"] = bool(raises)
                         had = c._sock
                         c.socks[-1].feed(data)
@@ -274,6 +278,8 @@ CFGS = [
     {"clean": 0, "max": 0, "maxq": 0, "manual": True, "suppress": False},
     {"clean": 0, "max": 1, "maxq": 2, "manual": False, "suppress": True, "v5": True},
     {"clean": 1, "max": 3, "maxq": 0, "manual": True, "suppress": True, "v5": True},
+    {"clean": 0, "max": 2, "maxq": 0, "manual": False, "suppress": False, "api": 1},
+    {"clean": 2, "max": 1, "maxq": 0, "manual": False, "suppress": False, "api": 1},
 ]
 
 
